@@ -351,11 +351,32 @@ func c18(c *core.Ctx) {
 						continue
 					}
 					for _, v := range r.Results {
-						if !core.AllOrigins(v, func(o ssa.Value) bool {
+						// an answer computed from the operands by something other than the primitive (a checking
+						// function handed the messages); a constant refusal under a test of one operand (nil
+						// destination) is not a verdict on the pair
+						for _, o := range core.Origins(v) {
 							cr, _, ok := core.CallResult(o)
-							return ok && cr == call
-						}) {
-							other = r.Pos()
+							if !ok || cr == call {
+								continue
+							}
+							for _, a := range core.Args(&cr.Call) {
+								for _, pp := range params {
+									if core.OriginIs(a, func(x ssa.Value) bool {
+										x = core.Strip(x)
+										if x == ssa.Value(pp) {
+											return true
+										}
+										if ex, isEx := x.(*ssa.Extract); isEx {
+											if ta, isTA := ex.Tuple.(*ssa.TypeAssert); isTA && ta.X == ssa.Value(pp) {
+												return true
+											}
+										}
+										return false
+									}) {
+										other = r.Pos()
+									}
+								}
+							}
 						}
 					}
 				}
